@@ -47,9 +47,22 @@ func c08Wrap(n *model.Node, pos model.Position) *model.Node {
 	return n
 }
 
+// c08Spec writes the annotated node at its position in the root; for every third rule text (by
+// hash) the wrapped node is the text of an ADDED TYPE @host instead and the root only names it, and
+// for half of those another root over the same type objects is checked first (lib.Spec.PreRoot):
+// where a rule set is written and what was compiled before do not change what Check decides.
 func c08Spec(n *model.Node, pos model.Position) lib.Spec {
-	s := &model.Schema{Root: c08Wrap(n, pos), Types: gen.RuleEnv()}
-	return specOf(s, model.Style{})
+	w := c08Wrap(n, pos)
+	h := mon.HashString(model.Canonical(w))
+	// one text in four writes the rule names (also inside or rule-sets) in quotes
+	st := model.Style{QuoteNames: h%4 == 1}
+	if h%3 != 0 || (pos == model.PosRoot && n.Rule("optional") != nil) {
+		return specOf(&model.Schema{Root: w, Types: gen.RuleEnv()}, st)
+	}
+	types := append(gen.RuleEnv(), &model.TypeDef{Name: "@host", Root: w})
+	sp := specOf(&model.Schema{Root: model.Obj(model.P("h", model.Ref("@host"))), Types: types}, st)
+	sp.PreRoot = h%6 == 0
+	return sp
 }
 
 var c08Applicable = [][]string{
@@ -62,6 +75,7 @@ var c08Applicable = [][]string{
 	{"optional", "nullable", "const", "min", "max", "exclusiveMinimum", "exclusiveMaximum", "precision", "type"}, // float
 	{"optional", "nullable", "const", "type", "enum"},                                                            // boolean
 	{"optional", "nullable", "const", "type", "enum"},                                                            // null
+	{"optional", "nullable", "const", "min", "max", "exclusiveMinimum", "exclusiveMaximum", "precision", "type"}, // negative float
 	{"optional", "nullable"}, // reference
 }
 
